@@ -122,7 +122,12 @@ def _tx_events(args):
                            [[a_, b_, rs_, E.loc_outcome(lambda a_=a_, b_=b_, rs_=rs_: B.transcript_interval_to_chunk_relative(
                                a_, b_, strands[rs_]))]
                             for (a_, b_, rs_) in [(rnd.randrange(-1, n + 1), rnd.randrange(0, n + 2), rnd.choice("+-"))
-                                                  for _ in range(4)]]])
+                                                  for _ in range(4)]],
+                           [[a_, b_, rs_, E.loc_outcome(
+                               (lambda a_=a_, b_=b_, rs_=rs_: B.cds_interval_to_chunk_relative(a_, b_, strands[rs_])) if k_ % 2 or B.cds is None
+                               else (lambda a_=a_, b_=b_, rs_=rs_: B.cds.cds_interval_to_chunk_relative(a_, b_, strands[rs_])))]
+                            for k_, (a_, b_, rs_) in enumerate([(rnd.randrange(-1, m + 1), rnd.randrange(0, m + 2), rnd.choice("+-"))
+                                                                for _ in range(4)])]])
                 # the derived accessors of the chunk-relative (and chromosome) structure
                 def lo(fn):
                     return E.outcome(fn, lambda r: (E.loc(r),))
